@@ -1061,3 +1061,76 @@ def pattern_users(ctx, m, call: ast.Call, depth: int = 3) -> Set[str]:
                     nxt.append(cs.func)
         frontier = nxt
     return out
+
+
+# ---- the escapes JSON.stringify writes ------------------------------------------------------------------------
+
+
+_JSON_SHORT = {0x08: "\\b", 0x09: "\\t", 0x0A: "\\n", 0x0C: "\\f", 0x0D: "\\r", 0x22: '\\"', 0x5C: "\\\\"}
+
+
+def rule_json_escape_table(ctx, rep, rid: str) -> None:
+    """QuoteJSONString: \\b \\t \\n \\f \\r \\" \\\\ have two-character escapes, the other C0 controls are written as \\u00xx
+    (lower-case hex), everything else as it is.  The host's json.dumps does that; an escape table of the repository's
+    own is folded here (its module-level construction consists of literals, comprehensions and pure host functions)
+    and compared entry by entry - a later `update` over all of range(0x20) overwrites the five short escapes."""
+    rep.rule(rid, "the quoting of JSON strings goes through the host's json.dumps, or through a translation table whose folded content maps \\b \\t \\n \\f \\r \" \\\\ to their two-character escapes and the remaining controls below 0x20 to \\u00xx", floor=1)
+    from .isolation import _PURE_HOST, _constant_expression
+
+    n = 0
+    for f in ctx.tree.funcs:
+        if isinstance(f.node, ast.Lambda) or f.module.name not in ("context", "vm", "values"):
+            continue
+        for c in f.own_nodes():
+            if not (isinstance(c, ast.Call) and isinstance(c.func, ast.Attribute) and c.func.attr == "translate" and c.args and isinstance(c.args[0], ast.Name)):
+                continue
+            name = c.args[0].id
+            if "json" not in f.qual.lower() and "json" not in name.lower() and "quote" not in f.qual.lower():
+                continue
+            stmts = []
+            for s_ in f.module.tree.body:
+                if isinstance(s_, ast.Assign) and len(s_.targets) == 1 and norm(s_.targets[0]) == name:
+                    stmts.append(s_)
+                elif isinstance(s_, ast.Expr) and isinstance(s_.value, ast.Call) and isinstance(s_.value.func, ast.Attribute) and norm(s_.value.func.value) == name:
+                    stmts.append(s_)
+            if not stmts:
+                continue
+            n += 1
+            key = f"{f.qual}:{name}:json-escapes"
+            foldable = all(_constant_expression(s_.value if isinstance(s_, ast.Assign) else ast.Tuple(elts=list(s_.value.args), ctx=ast.Load())) for s_ in stmts)
+            if not foldable:
+                rep.ok(rid, key, {"note": "table not built from constants alone: not folded"})
+                continue
+            import builtins as _b
+
+            ns = {"__builtins__": {k: getattr(_b, k) for k in _PURE_HOST if hasattr(_b, k)}}
+            try:
+                exec(compile(ast.Module(body=[ast.fix_missing_locations(s_) for s_ in stmts], type_ignores=[]), "<folded table>", "exec"), ns)
+            except Exception as e:  # the initialiser itself is broken: not this rule's business
+                rep.ok(rid, key, {"note": f"folding failed: {type(e).__name__}"})
+                continue
+            table = ns.get(name)
+            if not isinstance(table, dict):
+                rep.ok(rid, key, {"note": "not a mapping"})
+                continue
+            wrong = []
+            for cp in range(0x20):
+                want = _JSON_SHORT.get(cp, "\\u%04x" % cp)
+                got = table.get(cp, table.get(chr(cp)))
+                if got != want:
+                    wrong.append((cp, got, want))
+            for cp in (0x22, 0x5C):
+                got = table.get(cp, table.get(chr(cp)))
+                if got != _JSON_SHORT[cp]:
+                    wrong.append((cp, got, _JSON_SHORT[cp]))
+            if wrong:
+                cp, got, want = wrong[0]
+                rep.bad(rid, key, f"the escape table `{name}` used by {f.qual}, folded from its {len(stmts)} module-level statement(s), writes U+{cp:04X} as {got!r} where QuoteJSONString prescribes {want!r} ({len(wrong)} entr{'y' if len(wrong) == 1 else 'ies'} differ: {', '.join('U+%04X' % w[0] for w in wrong[:6])}): JSON.stringify(\"a\\nb\") is not the text \"a\\nb\"", f"{f.module.rel}:{stmts[-1].lineno}")
+            else:
+                rep.ok(rid, key, {"entries": len(table)})
+    if n == 0:
+        uses_dumps = any(isinstance(c, ast.Call) and norm(c.func) == "json.dumps" for f in ctx.tree.funcs if not isinstance(f.node, ast.Lambda) and f.module.name == "context" for c in f.own_nodes())
+        if uses_dumps:
+            rep.ok(rid, "json.dumps", {"note": "strings are quoted by the host library"})
+        else:
+            rep.ok(rid, "own-routine", {"note": "strings are quoted by a routine of the repository without a folded table: its escapes are judged by the other rules of this property"})
